@@ -35,6 +35,8 @@ def main():
     ap.add_argument("--only", default="")
     ap.add_argument("--tier", default="quick")
     ap.add_argument("--demo", action="store_true", help="also re-run the demonstrations")
+    ap.add_argument("--suite", action="store_true", help="also run the repository's test-suite on the changed copy")
+    ap.add_argument("--no-checks", action="store_true")
     a = ap.parse_args()
     os.makedirs("/root/scratch", exist_ok=True)
     root = os.path.join(VERIF, "seeded")
@@ -60,15 +62,25 @@ def main():
                 continue
             if a.demo:
                 rec["demo_changed_exit"] = run_demo(copy, demo)[0]
+            if a.suite:
+                shutil.copytree(os.path.join(REPO, "tests"), os.path.join(copy, "tests"), dirs_exist_ok=True)
+                env = dict(os.environ, PYTHONPATH=copy, MPLBACKEND="Agg")
+                p = subprocess.run([PY, "-m", "pytest", "-q", "-p", "no:cacheprovider", "-n", "8", "--timeout=900"], cwd=copy, env=env,
+                                   capture_output=True, text=True)
+                tail = [l for l in p.stdout.splitlines() if " passed" in l or " failed" in l]
+                rec["suite_with_change"] = tail[-1].strip() if tail else "exit %d" % p.returncode
             checks = meta.get("checks") or [meta["property"]]
             rec["checks"] = {}
-            for prop in checks:
+            for prop in ([] if a.no_checks else checks):
                 t0 = time.time()
                 env = dict(os.environ, VERIF_REPO=copy, VERIF_OUT=base)
                 p = subprocess.run([os.path.join(VERIF, "check"), prop, "--tier", a.tier], env=env, capture_output=True, text=True)
                 viol = [l[:260] for l in p.stdout.splitlines() if l.startswith("violation:")]
                 rec["checks"][prop] = dict(exit=p.returncode, wall=round(time.time() - t0, 1), first_violation=viol[:1])
-            rec["caught"] = any(v["exit"] == 1 for v in rec["checks"].values())
+            if a.no_checks:
+                del rec["checks"]
+            else:
+                rec["caught"] = any(v["exit"] == 1 for v in rec["checks"].values())
             out.append(rec)
             print(json.dumps(rec), flush=True)
         finally:
@@ -82,13 +94,13 @@ def main():
             merged = {}
     for r in out:
         prev = merged.get(r["id"], {})
-        for k in ("demo_unchanged_exit", "demo_changed_exit"):
+        for k in ("demo_unchanged_exit", "demo_changed_exit", "suite_with_change", "checks", "caught"):
             if k not in r and k in prev:
                 r[k] = prev[k]
         merged[r["id"]] = r
     with open(rp, "w") as f:
         json.dump([merged[k] for k in sorted(merged)], f, indent=1)
-    missed = [r["id"] for r in out if not r.get("caught")]
+    missed = [r["id"] for r in out if "caught" in r and not r.get("caught")]
     print("seeded changes: %d evaluated, %d caught, missed: %r" % (len(out), len(out) - len(missed), missed))
     return 0
 
